@@ -340,9 +340,55 @@ class _T(ast.NodeTransformer):
         return node
 
 
+REBIND = False  # set by the symbolic worker: bind the environment models while the module is being imported (see _inject_rebind)
+
+
+def _rebind_kind(path):
+    p = path.replace(os.sep, "/")
+    if p.endswith("/betterproto/__init__.py"):
+        return "core"
+    if p.endswith("/betterproto/casing.py") or p.endswith("/betterproto/compile/importing.py"):
+        return "text"
+    return None
+
+
+def _inject_rebind(tree, kind):
+    """`__vf_rebind__(globals(), kind, first)` at the top of the module and after every top-level import: the names that stand for C code
+    (struct, json, BytesIO, re, ... and the builtins int / float / str / bytes) are bound to their models *before* module-level code
+    runs, so that tables, precompiled objects and default arguments built at import time capture the models and not the C objects"""
+
+    def call(first):
+        return ast.Expr(ast.Call(ast.Name("__vf_rebind__", ast.Load()), [ast.Call(ast.Name("globals", ast.Load()), [], []), ast.Constant(kind), ast.Constant(first)], []))
+
+    body, out, started = tree.body, [], False
+    for i, st in enumerate(body):
+        is_doc = i == 0 and isinstance(st, ast.Expr) and isinstance(getattr(st, "value", None), ast.Constant) and isinstance(st.value.value, str)
+        is_future = isinstance(st, ast.ImportFrom) and st.module == "__future__"
+        if not started and not is_doc and not is_future:
+            out.append(call(True))
+            started = True
+        out.append(st)
+        if isinstance(st, (ast.Import, ast.ImportFrom)) and not is_future:
+            out.append(call(False))
+    tree.body = out
+    return tree
+
+
+def vf_rebind(g, kind, first):
+    if not REBIND:
+        return
+    from . import shims
+
+    shims.rebind(g, kind, first)
+
+
 def rewrite(source, path):
     tree = ast.parse(source, path)
-    return ast.fix_missing_locations(_T().visit(tree))
+    tree = _T().visit(tree)
+    kind = _rebind_kind(path)
+    if kind:
+        tree = _inject_rebind(tree, kind)
+    return ast.fix_missing_locations(tree)
 
 
 class Loader(importlib.machinery.SourceFileLoader):
@@ -380,6 +426,7 @@ def install():
     builtins.__vf_setitem__ = vf_setitem
     builtins.__vf_in__ = vf_in
     builtins.__vf_eq__ = vf_eq
+    builtins.__vf_rebind__ = vf_rebind
     root = os.path.join(repo_root(), "src", "betterproto")
     if "betterproto" in sys.modules:
         raise RuntimeError("betterproto imported before the DESUGAR hook")
